@@ -227,6 +227,7 @@ func runScenario(t *testing.T, sc *Scenario) (h *History) {
 			srvEnd.rd.caps = cs.SrvCaps
 			srvEnd.faults = cs.SrvFaults
 			halves[i] = [2]*SimConn{srvEnd, cliEnd}
+			be.srvConns[i] = srvEnd
 			ch := &ConnHistory{ID: i, TLSSent: -1, TLSRecv: -1, SrvCloseSeq: -1}
 			h.Conns[i] = ch
 			srvEnd.closeHook = func() {
